@@ -186,19 +186,25 @@ func run(c *lib.Ctx) error {
 	}
 
 	// ---- all TLC work runs concurrently (8 workers in total)
-	nBig := c.Pick(24, 120)
-	K, D := c.Pick(4, 7), c.Pick(3, 5)
+	nBig := c.Pick(10, 120)
+	K, D := c.Pick(3, 7), c.Pick(3, 5)
 	maxLen := 3
 	L := c.Pick(2, 3)
 	agree := c.Pick(2, 3) // BackEndsAgree is evaluated on lists up to this length
 	var rSmall, rBig *lib.TLCResult
 	var bad []lib.BadCase
 	errs := make([]error, 5)
+	// development aid: VERIF_C11_ONLY=small|big|random|model restricts the run to one part
+	only := os.Getenv("VERIF_C11_ONLY")
+	want := func(part string) bool { return only == "" || only == part }
 	lib.Parallel(5, 5, func(i int) {
+		if !want([]string{"model", "model", "small", "big", "random"}[i]) {
+			return
+		}
 		switch i {
 		case 0: // M: the integer back end
 			r, err := c.TLC("MCBigNat", lib.TLCRun{Dir: dir, Module: "MCBigNat", Workers: 1, Timeout: 14 * time.Minute,
-				Files: map[string][]byte{"MCBigNat.cfg": cfg(fmt.Sprintf("CONSTANT N = %d\n", nBig), "NativeOK", "WideOK")}})
+				Files: map[string][]byte{"MCBigNat.cfg": cfg(fmt.Sprintf("CONSTANT N = %d\nCONSTANT AllWide = %s\n", nBig, map[bool]string{true: "TRUE", false: "FALSE"}[c.Thorough()]), "NativeOK", "WideOK")}})
 			if err == nil && r.ErrKind != "" {
 				err = lib.Infra("BigNat disagrees with native arithmetic: %s\n%s", r.Err, r.ErrTrace)
 			}
@@ -234,11 +240,14 @@ func run(c *lib.Ctx) error {
 		}
 	}
 
-	small, err := parseCases(rSmall)
+	var small, bigc []acase
+	if rSmall != nil {
+		small, err = parseCases(rSmall)
+	}
 	if err != nil {
 		return err
 	}
-	if len(small) < 10000 {
+	if want("small") && len(small) < 10000 {
 		return lib.Infra("small-pool enumeration incomplete: %d cases", len(small))
 	}
 	for i, gc := range small {
@@ -252,11 +261,13 @@ func run(c *lib.Ctx) error {
 	c.AddTraces(len(small))
 	c.Logf("small pool: %d cases replayed", len(small))
 
-	bigc, err := parseCases(rBig)
+	if rBig != nil {
+		bigc, err = parseCases(rBig)
+	}
 	if err != nil {
 		return err
 	}
-	if len(bigc) < 1000 {
+	if want("big") && len(bigc) < 1000 {
 		return lib.Infra("boundary enumeration incomplete: %d cases", len(bigc))
 	}
 	for i, gc := range bigc {
@@ -269,7 +280,7 @@ func run(c *lib.Ctx) error {
 	}
 	c.AddTraces(len(bigc))
 	c.Logf("boundary pool: %d cases replayed", len(bigc))
-	c.Set("exhaustive", true)
+	c.Set("exhaustive", only == "")
 	c.Set("bounds", map[string]any{"small_pool": "{-3,-2,-1,-1/2,0,1/3,1/2,1,2,3} + floats {0.0,1.5,+Inf,NaN} for * / %", "max_len": maxLen,
 		"boundary_pool": "{0,+-1,+-2^31,+-(2^63-1),+-2^63,+-(2^63+1),2^64,10^30} + big rationals", "boundary_len": L,
 		"laws_K": K, "laws_D": D, "bignat_native_N": nBig, "back_ends_agree_len": agree})
@@ -281,7 +292,7 @@ func run(c *lib.Ctx) error {
 }
 
 func recordRandom(c *lib.Ctx, ev *eval.Evaler) ([]vcase, error) {
-	n := c.Pick(600, 9000)
+	n := c.Pick(400, 9000)
 	g := &gen{r: c.Rand}
 	var cases []vcase
 	for i := 0; i < n; i++ {
